@@ -144,7 +144,7 @@ func checkC16(c *km.Ctx) {
 	// fallback): a renamed mutex field keeps the rule, an access under a different lock or none does not pass.
 	votes := map[string]map[string]int{}
 	for _, fn := range fns {
-		name := fn.Name()
+		name := km.NameOf(fn)
 		if fn.Parent() != nil {
 			name = fn.Parent().Name()
 		}
@@ -180,7 +180,7 @@ func checkC16(c *km.Ctx) {
 		if len(acc) == 0 {
 			continue
 		}
-		name := fn.Name()
+		name := km.NameOf(fn)
 		if fn.Parent() != nil {
 			name = fn.Parent().Name()
 		}
@@ -249,7 +249,7 @@ func checkC16(c *km.Ctx) {
 		if fn.Pkg.Pkg.Path() != KMD {
 			continue
 		}
-		name := fn.Name()
+		name := km.NameOf(fn)
 		held := ls.Held(fn)
 		km.Instrs(fn, func(in ssa.Instruction) {
 			// writes
@@ -382,7 +382,7 @@ func checkC16(c *km.Ctx) {
 					}
 				}
 			}
-			sites = append(sites, fn.Name())
+			sites = append(sites, km.NameOf(fn))
 			r.Add("R-C16-4", km.FuncName(fn), "load-modify-save of a user profile", posOf(c, sv), "serialised by a per-user/global profile lock held from the load to the save, or done in one database transaction", map[bool]string{true: "serialised", false: "unserialised: a concurrent request on the same user between the load and the save is overwritten / both are honoured"}[serial], serial)
 		}
 		_ = loads
@@ -414,7 +414,7 @@ func heldAtAllCallers(c *km.Ctx, ls *km.LockSets, fn *ssa.Function, mu string, d
 }
 
 func heldAtAllCallersOrStartup(c *km.Ctx, ls *km.LockSets, fn *ssa.Function, mu string, depth int) bool {
-	if _, ok := signerStartup[fn.Name()]; ok {
+	if _, ok := signerStartup[km.NameOf(fn)]; ok {
 		return true
 	}
 	callers := c.G.Callers[fn]
